@@ -143,9 +143,21 @@ func lay(t *Term) []seg {
 		case t.Name == "builtin.append":
 			out := append([]seg(nil), lay(t.Args[0])...)
 			for _, a := range t.Args[1:] {
+				out = append(out, bytesOf(lay(a))...) // append(b, s...) with a string s appends its bytes
+			}
+			return out
+		case t.Name == "slices.Concat" && len(t.Args) == 1:
+			parts, ok := listOf(t.Args[0])
+			if !ok {
+				layFail("slices.Concat over a symbolic list of parts")
+			}
+			var out []seg
+			for _, a := range parts {
 				out = append(out, lay(a)...)
 			}
 			return out
+		case (t.Name == "slices.Clone" || t.Name == "bytes.Clone") && len(t.Args) == 1:
+			return lay(t.Args[0])
 		case strings.HasPrefix(t.Name, "(encoding/binary.bigEndian).AppendUint"):
 			w := strings.TrimPrefix(methodOf(t.Name), "AppendUint")
 			n, _ := strconv.Atoi(w)
